@@ -34,10 +34,13 @@ PROPERTY = "C41"
 LEVEL = "exploration"
 BUDGET = {"quick": (1500, 14), "thorough": (40_000, 200)}
 WORKERS = {"quick": 2, "thorough": 16}
-REQUIRED = ["export_via_file", "export_via_memory", "order_and_count", "method", "url", "http_version", "request_headers", "request_body", "status", "response_headers", "response_body"]
+REQUIRED = ["form_matrix.canonical", "form_matrix.pct20-space", "form_matrix.bare-key", "export_via_file", "export_via_memory", "order_and_count", "method", "url", "http_version", "request_headers", "request_body", "status", "response_headers", "response_body"]
 ENGINE = "direct"
 TECHNIQUE = "round-trip differential against the generator's own record of each exchange"
 RULE = (
+    "first, in every tier, a fixed matrix: 19 urlencoded request-body classes (canonical, %20 vs +, unescaped URL value, bare key, lowercase hex, "
+    "&&, trailing/leading &, ; separators, escaped +, empty key/value, duplicate keys, non-UTF-8 escapes, escaped unreserved, raw UTF-8, = in value, "
+    "literal space, very long) x POST/PUT/PATCH x 4 form content-type spellings x 2 export routes; then random cases: "
     "case = 1-4 HTTP flows exported together (half through make_har+json.dumps, half through the real export_har file writer), their request start times ascending, descending, shuffled, all equal or with ties "
     "relative to the exported order; each flow = method (8 incl. an extension method) x scheme/host/port/path pools "
     "(queries, percent-encoding, non-default ports, rare punycode host and IPv6 literal) x Host/:authority form (consistent, absent, host, host:target port, host:other port, other host, other host:port; for h1 and h2/h3) x version (1.0, 1.1, 2.0, 3) x header "
@@ -96,6 +99,37 @@ TEXTS = ["hello world", "café naïve ü", "line1\r\nline2\n", "{\"k\": \"vé\"}
 PNG = b"\x89PNG\r\n\x1a\n\x00\x00\x00\rIHDR\x00\x00\x00\x01\x00\x00\x00\x01\x08\x06\x00\x00\x00\x1f\x15\xc4\x89"
 
 
+# urlencoded request bodies by class: the body is opaque bytes to the round trip, canonical or not
+FORM_BODIES = {
+    "canonical": b"a=1&b=%C3%A9&c=x+y",
+    "pct20-space": b"q=hello%20world&lang=en",
+    "raw-url-value": b"redirect=https://example.com/cb?x=1&state=abc",
+    "bare-key": b"flag&a=1",
+    "lowercase-hex": b"name=caf%c3%a9&sep=%2f",
+    "double-ampersand": b"a=1&&b=2",
+    "trailing-ampersand": b"a=1&b=2&",
+    "leading-ampersand": b"&a=1",
+    "semicolon-separators": b"a=1;b=2;c=3",
+    "literal-plus-escaped": b"sum=1%2B1&expr=a+%2B+b",
+    "empty-key": b"=value&a=1",
+    "empty-value": b"a=&b=",
+    "duplicate-keys": b"id=1&id=2&id=1",
+    "non-utf8-escape": b"name=caf%E9&raw=%FF%FE",
+    "unreserved-escaped": b"a=%41%42%7E&b=%2D%5F",
+    "raw-utf8-bytes": "city=Z\u00fcrich&x=1".encode("utf-8"),
+    "equals-in-value": b"token=abc==&next=a=b",
+    "space-literal": b"q=hello world",
+    "very-long": b"k=" + b"v" * 20000 + b"&x=%20&flag",
+}
+FORM_CLASSES = list(FORM_BODIES)
+FORM_CTS = [
+    "application/x-www-form-urlencoded",
+    "application/x-www-form-urlencoded; charset=UTF-8",
+    "application/x-www-form-urlencoded;charset=utf-8",
+    "Application/X-WWW-Form-URLEncoded",
+]
+
+
 def code(body: bytes, coding: str) -> bytes:
     if coding == "gzip":
         return gzip.compress(body, mtime=0)
@@ -118,7 +152,9 @@ def gen_body(r, side):
         b = r.choice([PNG, bytes(r.getrandbits(8) for _ in range(r.choice([1, 16, 200]))), b"\x00\x01\x02\x03"])
         return b, r.choice(["image/png", "application/octet-stream"]), {"body": "binary", "charset": None}
     if kind == "form":
-        return b"a=1&b=%C3%A9&c=x+y", "application/x-www-form-urlencoded", {"body": "form", "charset": None}
+        cls = r.choice(FORM_CLASSES)
+        ct = r.choice(FORM_CTS)
+        return FORM_BODIES[cls], ct, {"body": "form", "charset": "utf-8" if "charset" in ct else None, "form_class": cls}
     if kind == "json":
         t = json.dumps({"k": r.choice(TEXTS), "n": r.randrange(100)})
         return t.encode("utf-8"), "application/json", {"body": "json", "charset": None}
@@ -140,9 +176,10 @@ def gen_body(r, side):
     return b, f"text/plain; charset={cs}", {"body": "text", "charset": cs}
 
 
-def gen_flow(r, idx, t0=None):
+def gen_flow(r, idx, t0=None, method=None, req_body=None):
+    """method / req_body = (plain bytes, content type, feature dict) pin those two dimensions (fixed matrices)."""
     t0 = 946681200.0 + idx if t0 is None else t0
-    method = r.choice(METHODS)
+    method = method or r.choice(METHODS)
     scheme = r.choice(["http", "https"])
     ipv6 = r.random() < 0.03
     host = "::1" if ipv6 else (PUNYCODE_HOST if r.random() < 0.05 else r.choice(HOSTS))
@@ -197,8 +234,8 @@ def gen_flow(r, idx, t0=None):
         rh.append(r.choice(LATIN1_HDRS))
     rh.append((b"x-idx", str(idx).encode()))
     has_req_body = method in BODY_METHODS or r.random() < 0.05
-    req_plain, req_ct, rbf = (gen_body(r, "req") if has_req_body else (b"", None, {"body": "none", "charset": None}))
-    req_coding = r.choice(["identity"] * 6 + ["gzip", "br"]) if req_plain else "identity"
+    req_plain, req_ct, rbf = req_body or (gen_body(r, "req") if has_req_body else (b"", None, {"body": "none", "charset": None}))
+    req_coding = r.choice(["identity"] * 6 + ["gzip", "br"]) if (req_plain and req_body is None) else "identity"
     if req_ct:
         rh.append((b"content-type", req_ct.encode()))
     if req_coding != "identity":
@@ -221,7 +258,7 @@ def gen_flow(r, idx, t0=None):
         t0,
         t0 + 1.0,
     )
-    feats.update(req_body=rbf["body"], req_charset=rbf["charset"], req_coding=req_coding, req_dup=len({k.lower() for k, _ in rh}) < len(rh), req_latin1=latin1_req, req_nonascii=any(max(v, default=0) > 127 for _, v in rh))
+    feats.update(req_form_class=rbf.get("form_class"), req_body=rbf["body"], req_charset=rbf["charset"], req_coding=req_coding, req_dup=len({k.lower() for k, _ in rh}) < len(rh), req_latin1=latin1_req, req_nonascii=any(max(v, default=0) > 127 for _, v in rh))
 
     f = tflow.tflow(req=req)
     f.request = req
@@ -365,6 +402,119 @@ def classify(kind, feats, info):
     return None
 
 
+def process(ctx, sh, tmpdir, gen, route, order_mode, ts):
+    """Export the generated flows through `route`, import the result and compare every listed field."""
+    n = len(gen)
+    ctx.seen("start_time_orders", order_mode if order_mode not in ("shuffled", "ties") else f"{order_mode}:{'sorted' if ts == sorted(ts) else 'unsorted'}")
+    flows = [g[0] for g in gen]
+    feats_all = [g[2] for g in gen]
+
+    def W(k, extra):
+        f, exp, feats = gen[k]
+        return {
+            "flow_index": k,
+            "features": feats,
+            "request": {"method": exp["method"], "url": exp["url"], "version": exp["version"], "headers": exp["req_headers"], "body": exp["req_plain"][:200]},
+            "response": {"status": exp.get("status"), "headers": exp.get("resp_headers"), "body": (exp.get("resp_plain") or b"")[:200]},
+            **extra,
+        }
+
+    # ---- export (any exception here is a defect of the exporter on a well-formed flow)
+    try:
+        data = export(sh, flows, route, tmpdir)
+    except Exception as e:
+        ctx.count("export_total")
+        ctx.violation("export-raises", {"exc": repr(e), "route": route, "features": feats_all}, None)
+        ctx.case(("export-raises",), nontrivial=False)
+        return
+    ctx.count("export_total")
+    ctx.count("export_via_" + route)
+    # ---- import
+    try:
+        back = list(FlowReader(_io.BytesIO(data)).stream())
+    except Exception as e:
+        # find the culprit flow(s) by importing one at a time
+        culprits = 0
+        for k in range(n):
+            try:
+                list(FlowReader(_io.BytesIO(export(sh, [flows[k]], route, tmpdir))).stream())
+            except Exception as e2:
+                culprits += 1
+                ctx.violation("import-raises", W(k, {"route": route, "exc": repr(e2), "cause": repr(e2.__context__)}), classify("import-raises", feats_all[k], {}))
+        if not culprits:
+            ctx.violation("import-raises", {"route": route, "exc": repr(e), "note": "every flow imports alone, the combined file does not", "features": feats_all}, None)
+        ctx.count("import_total")
+        ctx.case(case_sig(feats_all, order_mode, route), nontrivial=any(nontrivial(fe) for fe in feats_all))
+        return
+    ctx.count("import_total")
+
+    ctx.count("order_and_count")
+    if len(back) != n:
+        ctx.violation("count-differs", {"exported": n, "imported": len(back), "features": feats_all}, None)
+    else:
+        idxs = [g.request.headers.get("x-idx") for g in back]
+        if idxs != [str(k) for k in range(n)]:
+            ctx.violation("order-differs", {"imported_x_idx": idxs, "start_times_in_exported_order": ts, "start_time_order": order_mode, "features": feats_all}, None)
+
+    # field comparison pairs each exported flow with the imported flow carrying its x-idx marker when the imported
+    # markers are a permutation of the exported ones (a pure reordering is reported once, as order-differs)
+    marks = [g.request.headers.get("x-idx") for g in back]
+    if sorted(m or "" for m in marks) == sorted(str(k) for k in range(n)):
+        paired = [back[marks.index(str(k))] for k in range(n)]
+    else:
+        paired = back[:n]
+    for k, g in enumerate(paired):
+        f, exp, feats = gen[k]
+        q = g.request
+        ctx.count("method")
+        if q.method != exp["method"]:
+            ctx.violation("method-differs", W(k, {"got": q.method}), classify("method-differs", feats, {}))
+        ctx.count("url")
+        if q.url != exp["url"]:
+            ctx.violation("url-differs", W(k, {"got": q.url}), classify("url-differs", feats, {}))
+        ctx.count("http_version")
+        got_v = (q.http_version, g.response.http_version if (g.response and exp["has_response"]) else None)
+        want_v = (exp["version"], exp["version"] if exp["has_response"] else None)
+        if got_v != want_v:
+            ctx.violation("http-version-differs", W(k, {"got": got_v}), classify("http-version-differs", feats, {}))
+        ctx.count("request_headers")
+        a = norm_headers(exp["req_headers"], drop=(b"content-length",))
+        b = norm_headers(q.headers.fields, drop=(b"content-length",))
+        if a != b:
+            for mech, names in explain_headers("request", header_diff(a, b), feats):
+                ctx.violation("request-headers-differ", W(k, {"got": list(q.headers.fields), "changed": sorted(names)}), mech)
+        if exp["method"] in BODY_METHODS:
+            ctx.count("request_body")
+            got = q.get_content(strict=False)
+            if (got or b"") != exp["req_plain"]:
+                ctx.violation("request-body-differs", W(k, {"got": got}), classify("request-body-differs", feats, {}))
+        if not exp["has_response"]:
+            continue
+        s = g.response
+        ctx.count("status")
+        if s is None or s.status_code != exp["status"]:
+            ctx.violation("status-differs", W(k, {"got": s and s.status_code}), classify("status-differs", feats, {}))
+            if s is None:
+                continue
+        ctx.count("response_headers")
+        a = norm_headers(exp["resp_headers"])
+        b = norm_headers(s.headers.fields)
+        if a != b:
+            for mech, names in explain_headers("response", header_diff(a, b), feats):
+                ctx.violation("response-headers-differ", W(k, {"got": list(s.headers.fields), "changed": sorted(names)}), mech)
+        ctx.count("response_body")
+        got = s.get_content(strict=False)
+        if (got or b"") != exp["resp_plain"]:
+            ctx.violation("response-body-differs", W(k, {"got": got}), classify("response-body-differs", feats, {}))
+
+    ctx.count("flows_compared", n)
+    ctx.case(
+        case_sig(feats_all, order_mode, route),
+        nontrivial=any(nontrivial(fe) for fe in feats_all),
+        sample={"n_flows": n, "start_time_order": order_mode, "features": feats_all[0], "url": gen[0][1]["url"], "request_headers": gen[0][1]["req_headers"], "response_headers": gen[0][1].get("resp_headers")},
+    )
+
+
 def export(sh, flows, route, tmpdir):
     """HAR bytes of the flows: 'memory' = make_har + json.dumps as export_har does; 'file' = the real save.har / hardump writer
     (SaveHar.export_har to a path) read back from disk."""
@@ -385,8 +535,26 @@ def run(ctx):
         shutil.rmtree(tmpdir, ignore_errors=True)
 
 
+def form_matrix(ctx, sh, tmpdir):
+    """Fixed matrix, before the random cases in every tier: urlencoded body class x POST/PUT/PATCH x form content-type spelling x
+    export route, one flow per file; split over the workers."""
+    k = 0
+    for cls in FORM_CLASSES:
+        for method in BODY_METHODS:
+            for ct in FORM_CTS:
+                for route in ("memory", "file"):
+                    if k % ctx.nworkers == ctx.worker:
+                        r = ctx.case_rng(-5000 - k, "c41-form")
+                        body = (FORM_BODIES[cls], ct, {"body": "form", "charset": "utf-8" if "charset" in ct else None, "form_class": cls})
+                        gen = [gen_flow(r, 0, 946681200.0, method=method, req_body=body)]
+                        ctx.count("form_matrix." + cls)
+                        process(ctx, sh, tmpdir, gen, route, "single", [946681200.0])
+                    k += 1
+
+
 def _run(ctx, tmpdir):
     sh = SaveHar()
+    form_matrix(ctx, sh, tmpdir)
     for i in ctx.cases():
         r = ctx.rng
         route = "file" if r.random() < 0.5 else "memory"
@@ -405,114 +573,7 @@ def _run(ctx, tmpdir):
         else:
             ts = [946681200.0 + r.choice([0.001, 0.5, 1, 7, 3600]) * r.randrange(-5, 6) for _ in range(n)]
         gen = [gen_flow(r, k, ts[k]) for k in range(n)]
-        ctx.seen("start_time_orders", order_mode if order_mode not in ("shuffled", "ties") else f"{order_mode}:{'sorted' if ts == sorted(ts) else 'unsorted'}")
-        flows = [g[0] for g in gen]
-        feats_all = [g[2] for g in gen]
-
-        def W(k, extra):
-            f, exp, feats = gen[k]
-            return {
-                "flow_index": k,
-                "features": feats,
-                "request": {"method": exp["method"], "url": exp["url"], "version": exp["version"], "headers": exp["req_headers"], "body": exp["req_plain"][:200]},
-                "response": {"status": exp.get("status"), "headers": exp.get("resp_headers"), "body": (exp.get("resp_plain") or b"")[:200]},
-                **extra,
-            }
-
-        # ---- export (any exception here is a defect of the exporter on a well-formed flow)
-        try:
-            data = export(sh, flows, route, tmpdir)
-        except Exception as e:
-            ctx.count("export_total")
-            ctx.violation("export-raises", {"exc": repr(e), "route": route, "features": feats_all}, None)
-            ctx.case(("export-raises",), nontrivial=False)
-            continue
-        ctx.count("export_total")
-        ctx.count("export_via_" + route)
-        # ---- import
-        try:
-            back = list(FlowReader(_io.BytesIO(data)).stream())
-        except Exception as e:
-            # find the culprit flow(s) by importing one at a time
-            culprits = 0
-            for k in range(n):
-                try:
-                    list(FlowReader(_io.BytesIO(export(sh, [flows[k]], route, tmpdir))).stream())
-                except Exception as e2:
-                    culprits += 1
-                    ctx.violation("import-raises", W(k, {"route": route, "exc": repr(e2), "cause": repr(e2.__context__)}), classify("import-raises", feats_all[k], {}))
-            if not culprits:
-                ctx.violation("import-raises", {"route": route, "exc": repr(e), "note": "every flow imports alone, the combined file does not", "features": feats_all}, None)
-            ctx.count("import_total")
-            ctx.case(case_sig(feats_all, order_mode, route), nontrivial=any(nontrivial(fe) for fe in feats_all))
-            continue
-        ctx.count("import_total")
-
-        ctx.count("order_and_count")
-        if len(back) != n:
-            ctx.violation("count-differs", {"exported": n, "imported": len(back), "features": feats_all}, None)
-        else:
-            idxs = [g.request.headers.get("x-idx") for g in back]
-            if idxs != [str(k) for k in range(n)]:
-                ctx.violation("order-differs", {"imported_x_idx": idxs, "start_times_in_exported_order": ts, "start_time_order": order_mode, "features": feats_all}, None)
-
-        # field comparison pairs each exported flow with the imported flow carrying its x-idx marker when the imported
-        # markers are a permutation of the exported ones (a pure reordering is reported once, as order-differs)
-        marks = [g.request.headers.get("x-idx") for g in back]
-        if sorted(m or "" for m in marks) == sorted(str(k) for k in range(n)):
-            paired = [back[marks.index(str(k))] for k in range(n)]
-        else:
-            paired = back[:n]
-        for k, g in enumerate(paired):
-            f, exp, feats = gen[k]
-            q = g.request
-            ctx.count("method")
-            if q.method != exp["method"]:
-                ctx.violation("method-differs", W(k, {"got": q.method}), classify("method-differs", feats, {}))
-            ctx.count("url")
-            if q.url != exp["url"]:
-                ctx.violation("url-differs", W(k, {"got": q.url}), classify("url-differs", feats, {}))
-            ctx.count("http_version")
-            got_v = (q.http_version, g.response.http_version if (g.response and exp["has_response"]) else None)
-            want_v = (exp["version"], exp["version"] if exp["has_response"] else None)
-            if got_v != want_v:
-                ctx.violation("http-version-differs", W(k, {"got": got_v}), classify("http-version-differs", feats, {}))
-            ctx.count("request_headers")
-            a = norm_headers(exp["req_headers"], drop=(b"content-length",))
-            b = norm_headers(q.headers.fields, drop=(b"content-length",))
-            if a != b:
-                for mech, names in explain_headers("request", header_diff(a, b), feats):
-                    ctx.violation("request-headers-differ", W(k, {"got": list(q.headers.fields), "changed": sorted(names)}), mech)
-            if exp["method"] in BODY_METHODS:
-                ctx.count("request_body")
-                got = q.get_content(strict=False)
-                if (got or b"") != exp["req_plain"]:
-                    ctx.violation("request-body-differs", W(k, {"got": got}), classify("request-body-differs", feats, {}))
-            if not exp["has_response"]:
-                continue
-            s = g.response
-            ctx.count("status")
-            if s is None or s.status_code != exp["status"]:
-                ctx.violation("status-differs", W(k, {"got": s and s.status_code}), classify("status-differs", feats, {}))
-                if s is None:
-                    continue
-            ctx.count("response_headers")
-            a = norm_headers(exp["resp_headers"])
-            b = norm_headers(s.headers.fields)
-            if a != b:
-                for mech, names in explain_headers("response", header_diff(a, b), feats):
-                    ctx.violation("response-headers-differ", W(k, {"got": list(s.headers.fields), "changed": sorted(names)}), mech)
-            ctx.count("response_body")
-            got = s.get_content(strict=False)
-            if (got or b"") != exp["resp_plain"]:
-                ctx.violation("response-body-differs", W(k, {"got": got}), classify("response-body-differs", feats, {}))
-
-        ctx.count("flows_compared", n)
-        ctx.case(
-            case_sig(feats_all, order_mode, route),
-            nontrivial=any(nontrivial(fe) for fe in feats_all),
-            sample={"n_flows": n, "start_time_order": order_mode, "features": feats_all[0], "url": gen[0][1]["url"], "request_headers": gen[0][1]["req_headers"], "response_headers": gen[0][1].get("resp_headers")},
-        )
+        process(ctx, sh, tmpdir, gen, route, order_mode, ts)
 
 
 def sig_of(fe):
@@ -530,7 +591,7 @@ def sig_of(fe):
         fe["method"],
         fe["version"],
         fe["host_form"],
-        fe["req_body"],
+        fe["req_body"] if fe["req_body"] != "form" else "form:" + str(fe.get("req_form_class")),
         fe["req_coding"],
         fe.get("resp"),
         fe.get("resp_body"),
